@@ -24,8 +24,8 @@ def one(diff):
     finally:
         shutil.rmtree(d, ignore_errors=True)
 
-diffs = sorted(glob.glob(os.path.join(sys.argv[1], "r*.diff")), key=lambda x: int(''.join(c for c in os.path.basename(x) if c.isdigit())))
-with concurrent.futures.ThreadPoolExecutor(4) as ex:
+diffs = sorted(glob.glob(os.path.join(sys.argv[1], "*.diff")), key=lambda x: int(''.join(c for c in os.path.basename(x) if c.isdigit())))
+with concurrent.futures.ThreadPoolExecutor(8) as ex:
     for diff, out in ex.map(one, diffs):
         print("==", os.path.basename(diff), "false alarms:" if out else "silent", len(out))
         for o in sorted(set(out)):
